@@ -106,9 +106,13 @@ package core
 //@   modifies core.currentContextDirective, core.currentDirective, core.directives, heap(Directive.Parent), heap(Directive.depth), heap(Directive.Children)
 //@   ensures ret == nil ==> CoreScanInv(core) && core.currentDirective == nil
 
+// at the end of input every explicit context must have been closed: on success no directive on the FINAL context chain
+// (the last directive included) still has an open parenthesis (eanc is the ancestor chain of the exit state)
 //@ func (*JApiCore).processEOF
 //@   tag C06 C01 C02
+//@   letpost eanc(k int) *directive.Directive : eanc(0) == core.currentContextDirective ; forall k :: k >= 0 ==> eanc(k+1) == (eanc(k) == nil ? nil : eanc(k).Parent)
 //@   requires CoreScanInv(core) && 1 <= core.scanner.curIndex
+//@   ensures [C06] ret == nil ==> exists k :: k >= 0 && eanc(k) == nil && (forall j :: 0 <= j && j < k ==> eanc(j) != nil && !eanc(j).HasExplicitContext)
 //@   modifies core.currentContextDirective, core.currentDirective, core.directives, heap(Directive.Parent), heap(Directive.depth), heap(Directive.Children)
 //@   ensures ret == nil ==> CoreScanInv(core) && core.currentDirective == nil
 
